@@ -72,10 +72,11 @@ const (
 	cStallDownload        // the relay pushes 6 MB; the client stops consuming after the first message, waits 3 s, closes
 	cRelayDown            // the relay URL the broker hands out is unreachable
 	cBadOffer             // the broker hands out an offer that does not deserialise
+	cRelayStalls          // the relay accepts the TCP connection and never answers the WebSocket handshake
 	nClientModes
 )
 
-var cModeName = []string{"echo-then-close", "close-at-open", "never-applies-answer", "stalls-during-download-then-closes", "relay-unreachable", "undecodable-offer"}
+var cModeName = []string{"echo-then-close", "close-at-open", "never-applies-answer", "stalls-during-download-then-closes", "relay-unreachable", "undecodable-offer", "relay-accepts-and-never-answers"}
 
 type t2Poll struct {
 	n       int
@@ -150,6 +151,33 @@ func t2RunScenarioSettle(capacity uint, modes []int, settle bool) *t2Outcome {
 	dead, _ := net.Listen("tcp", "127.0.0.1:0")
 	deadURL := "ws://" + dead.Addr().String() + "/"
 	dead.Close()
+	// a relay that completes the TCP handshake and then says nothing (the proxy's dial is given up after
+	// gorilla's default 45 s handshake timeout; the slot must come back then)
+	mute, _ := net.Listen("tcp", "127.0.0.1:0")
+	muteURL := "ws://" + mute.Addr().String() + "/"
+	var muteConns []net.Conn
+	var muteMu sync.Mutex
+	go func() {
+		for {
+			c, err := mute.Accept()
+			if err != nil {
+				return
+			}
+			muteMu.Lock()
+			muteConns = append(muteConns, c)
+			muteMu.Unlock()
+		}
+	}()
+	closeMute := func() {
+		mute.Close()
+		muteMu.Lock()
+		for _, c := range muteConns {
+			c.Close()
+		}
+		muteConns = nil
+		muteMu.Unlock()
+	}
+	defer closeMute()
 
 	var nPolls int32
 	brokerSrv := httptest.NewServer(http.HandlerFunc(func(rw http.ResponseWriter, r *http.Request) {
@@ -212,6 +240,10 @@ func t2RunScenarioSettle(capacity uint, modes []int, settle bool) *t2Outcome {
 	started := make(chan error, 1)
 	go func() { started <- proxy.Start() }()
 	defer func() {
+		// a dial still waiting for the mute relay ends now, and gives its slot back to THIS proxy's token
+		// pool (a package variable that the next scenario's Start replaces)
+		closeMute()
+		time.Sleep(time.Second)
 		proxy.Stop()
 		select {
 		case <-started:
@@ -298,6 +330,8 @@ func t2RunScenarioSettle(capacity uint, modes []int, settle bool) *t2Outcome {
 			ru = relayWS + "/download"
 		case cRelayDown:
 			ru = deadURL
+		case cRelayStalls:
+			ru = muteURL
 		case cBadOffer:
 			offerJSON = `{"type":"offer","sdp":`
 		}
@@ -346,7 +380,7 @@ func t2RunScenarioSettle(capacity uint, modes []int, settle bool) *t2Outcome {
 		}
 		switch mode {
 		case cCloseAtOpen:
-		case cRelayDown:
+		case cRelayDown, cRelayStalls:
 			time.Sleep(500 * time.Millisecond)
 		case cStallDownload:
 			select {
@@ -403,9 +437,19 @@ func t2RunScenarioSettle(capacity uint, modes []int, settle bool) *t2Outcome {
 			if results[i].noWebRTC {
 				break
 			}
-			// the slot must come back before the next client can be served
-			if !waitPoll(t2Wait) {
+			// the slot must come back before the next client can be served: with capacity 1 the proxy polls
+			// only while it holds no client, so a poll that arrives from now on shows it (polls signalled
+			// earlier are discarded first)
+			for drained := false; !drained; {
+				select {
+				case <-w.pollCh:
+				default:
+					drained = true
+				}
+			}
+			if !waitPoll(t2Wait + 10*time.Second) {
 				out.slow = true
+				out.msg = fmt.Sprintf("capacity 1: no poll within %v after client %d (%s) had left", t2Wait+10*time.Second, i, cModeName[m])
 				return out
 			}
 		}
@@ -474,7 +518,7 @@ func TestVerifEnumC16T2(t *testing.T) {
 	for m := 0; m < nClientModes; m++ {
 		scen = append(scen, scenario{1, []int{m}})
 	}
-	scen = append(scen, scenario{1, []int{cCloseAtOpen, cEcho}}, scenario{1, []int{cRelayDown, cBadOffer, cEcho}}, scenario{2, []int{cEcho, cEcho}}, scenario{2, []int{cStallDownload, cEcho}}, scenario{3, []int{cEcho, cCloseAtOpen, cRelayDown}})
+	scen = append(scen, scenario{1, []int{cCloseAtOpen, cEcho}}, scenario{1, []int{cRelayDown, cBadOffer, cEcho}}, scenario{2, []int{cEcho, cEcho}}, scenario{2, []int{cStallDownload, cEcho}}, scenario{3, []int{cEcho, cCloseAtOpen, cRelayDown}}, scenario{1, []int{cRelayStalls, cEcho}})
 	if r.Thorough() {
 		for a := 0; a < nClientModes; a++ {
 			for b := 0; b < nClientModes; b++ {
@@ -501,6 +545,9 @@ func TestVerifEnumC16T2(t *testing.T) {
 			names = append(names, cModeName[m])
 		}
 		desc := fmt.Sprintf("capacity %d, clients [%s]", sc.capacity, strings.Join(names, ", "))
+		if only := os.Getenv("VERIF_T2_ONLY"); only != "" && !strings.Contains(desc, only) {
+			continue
+		}
 		r.Case("t2|"+desc, true)
 		t0 := time.Now()
 		o := t2RunScenario(sc.capacity, sc.modes)
@@ -513,6 +560,7 @@ func TestVerifEnumC16T2(t *testing.T) {
 			rep := 0
 			for i := 0; i < 3; i++ {
 				o2 := t2RunScenario(sc.capacity, sc.modes)
+				logf("%s: re-run %d: slow=%v infra=%q noWebRTC=%v sig=%q %s", desc, i+1, o2.slow, o2.infra, o2.noWebRTC, o2.sig, o2.msg)
 				if o2.slow {
 					rep++
 				}
